@@ -57,6 +57,14 @@ def gen_segment_history(rng, n, strict=False, reject=False):
                 ['add_otherversion', name, val], ['del', '%s_%d' % (seg.lower(), 19)], ['set', 'foo_1', 'X'], ['set_elem_wrongname', name.lower()],
                 ['replace_otherlevel', name.lower(), val], ['add_overflow', '%s_1' % seg, '1'], ['set_invalid_strict', name.lower()],
                 ['datatype_populated', name.lower()], ['deli', name.lower(), 7], ['setparent_otherlevel', name, val], ['set_basedt_refused', name.lower()], ['set_basedt_refused', name.lower(), 'long'], ['children_assign_refused', name, val]]))
+    if reject and rng.random() < .35:
+        # a refused replacement of a repetition that is NOT the last of its name and has children of another name before it: the
+        # rollback must put the old child back at its place in the list AND in the per-name order (seed C12-h)
+        i, j = rng.sample(idxs, 2) if len(idxs) > 1 else (idxs[0], idxs[0])
+        a, b = '%s_%d' % (seg, i), '%s_%d' % (seg, j)
+        pre = [['set', b.lower(), 'Q']] + [['add', a, x] for x in rng.sample(['A', 'B', 'C', 'H', 'K'], 3)]
+        pre.append(rng.choice([['replace_otherlevel_i', a.lower(), rng.choice([0, 1]), 'Z'], ['replace_otherlevel', a.lower(), 'Z']]))
+        ops = pre + ops
     return {'root': 'segment', 'segment': seg, 'version': '2.5', 'strict': strict, 'ops': ops}
 
 
@@ -495,6 +503,10 @@ def run_history(h):
                 f = Child(op[1].upper(), version=v, validation_level=other_lvl)
                 extra.append(f)
                 setattr(root, op[1], f)
+            elif kind == 'replace_otherlevel_i':
+                f = Child(op[1].upper(), version=v, validation_level=other_lvl)
+                extra.append(f)
+                getattr(root, op[1])[op[2]] = f
             elif kind == 'add_overflow':
                 f = Child(op[1], version=v, validation_level=lvl)
                 f.value = op[2]
